@@ -42,6 +42,8 @@ var ErrReadFileForPoolBuffer = fmt.Errorf("failed to read file for pool buffer")
 var ErrLoadTsoFile = fmt.Errorf("failed to load TSO file")
 var ErrLoadTsgFile = fmt.Errorf("failed to load TSG file")
 var ErrBadTsgVersion = fmt.Errorf("bad TSG version")
+var ErrBadTsoLength = fmt.Errorf("TSO file is shorter than its number of entries requires")
+var ErrBadTsgOffset = fmt.Errorf("series offset or length points outside the TSG file")
 
 /*
 Holder struct to read a single time series segment
@@ -336,9 +338,16 @@ func (tsbr *TimeSeriesBlockReader) GetTimeSeriesIterator(tsid uint64) (*compress
 	tsbr.lastTSID = tsid
 	tsbr.lastTSidx = tsIDX
 
+	// offset comes from the TSO file and tsgLen from the TSG file; neither file is checksummed
+	if uint64(offset)+13 > uint64(len(tsbr.rawTSG)) {
+		return nil, true, ErrBadTsgOffset
+	}
 	offset += 9 // 1 byte for version + 8 bytes is for tsid
 	tsgLen := utils.BytesToUint32LittleEndian(tsbr.rawTSG[offset : offset+4])
 	offset += 4
+	if uint64(offset)+uint64(tsgLen) > uint64(len(tsbr.rawTSG)) {
+		return nil, true, ErrBadTsgOffset
+	}
 	rawSeries := bytes.NewReader(tsbr.rawTSG[offset : offset+tsgLen])
 	it, err := compress.NewDecompressIterator(rawSeries)
 	if err != nil {
@@ -409,15 +418,32 @@ func (tssr *TimeSeriesSegmentReader) loadTSOFile(fileName string) (byte, []byte,
 		return 0, nil, 0, err
 	}
 
+	if len(tssr.tsoBuf) < 1 {
+		return 0, nil, 0, ErrBadTsoLength
+	}
 	tsoVersion := tssr.tsoBuf[0]
 	nEntries := uint64(0)
+	headerLen := uint64(0)
 	switch tsoVersion {
 	case sutils.VERSION_TSOFILE_V1[0]:
+		headerLen = 3
+		if uint64(len(tssr.tsoBuf)) < headerLen {
+			return 0, nil, 0, ErrBadTsoLength
+		}
 		nEntries = uint64(utils.BytesToUint16LittleEndian(tssr.tsoBuf[1:3]))
 	case sutils.VERSION_TSOFILE_V2[0]:
+		headerLen = 9
+		if uint64(len(tssr.tsoBuf)) < headerLen {
+			return 0, nil, 0, ErrBadTsoLength
+		}
 		nEntries = utils.BytesToUint64LittleEndian(tssr.tsoBuf[1:9])
 	default:
 		return 0, nil, 0, ErrBadTsoVersion
+	}
+	// every entry is 8 bytes of tsid and 4 bytes of offset; the binary search in
+	// getOffsetFromTsoFile indexes up to entry nEntries-1
+	if nEntries == 0 || nEntries > (uint64(len(tssr.tsoBuf))-headerLen)/12 {
+		return 0, nil, 0, ErrBadTsoLength
 	}
 
 	return tsoVersion, tssr.tsoBuf, nEntries, nil
@@ -430,6 +456,9 @@ func (tssr *TimeSeriesSegmentReader) loadTSGFile(fileName string) ([]byte, error
 		return nil, err
 	}
 
+	if len(tssr.tsgBuf) < 1 {
+		return nil, ErrBadTsgVersion
+	}
 	versionTsgFile := make([]byte, 1)
 	copy(versionTsgFile, tssr.tsgBuf[:1])
 	if versionTsgFile[0] != sutils.VERSION_TSGFILE[0] {
